@@ -13,7 +13,8 @@ BUDGET = {'quick': 3000, 'thorough': 60000}
 RULE = ('Histories on frames with df*dt in [n-0.45, n+0.45], n = 1..10, plus exactly representable half-integers (where the '
         'statement\'s round() is read as Python\'s round-half-to-even): Hypothesis draws 1..5 ops from add_noise(chi2 | gaussian | truncated gaussian), '
         'add_noise_from_obs(own tables of 1..12 distinct entries | the shipped table, share_index on/off, three noise '
-        'types) and zero_data. Deterministic oracles after every op: data_after == data_before + returned exactly; '
+        'types; with a shared index also rows whose deviation exceeds the mean) and zero_data. Deterministic oracles after every op: data_after == data_before + returned exactly, '
+        'every array returned since the last reset still has the values it had when returned and the data equal their running sum; '
         'truncated noise >= floor (and the floor is attained, identifying the table entry); the first noise on an empty '
         'frame sets (noise_mean, noise_std) to the requested parameters, resp. (x_mean, x_mean*sqrt(2/k)), k = 4 round(df '
         'dt); table draws are table members with one common index when shared; the shipped table is scaled by '
@@ -24,9 +25,10 @@ RULE = ('Histories on frames with df*dt in [n-0.45, n+0.45], n = 1..10, plus exa
         'deviations add in quadrature incl. the shared array background (exact bookkeeping + sampled 40000-sample check). '
         'Non-trivial: a statistical facet evaluated on >= 32768 samples, or a history with >= 2 additions.')
 ASSUMPTIONS = ['expected false-alarm rate of the 6.5-sigma bands < 1e-6 per run; mutations of interest (k +- 4, variance formula) lie > 12 sigma away for k <= 40',
-               'own tables have means > deviations (the library raises the mean to the deviation otherwise)', 'no bit-equality with a particular RNG call pattern is required']
+               'own tables drawn without a shared index have means > deviations (there the library raises the mean to the deviation otherwise)', 'no bit-equality with a particular RNG call pattern is required']
 REQUIRED_CLASSES = ['stat_chi2', 'stat_gauss', 'stat_second_addition', 'obs_own_tables', 'obs_shipped', 'share_index', 'no_share_index',
-                    'truncated', 'zero_data', 'streams', 'dfdt=1', 'dfdt>=5', 'dfdt_exact_tie', 'rejected_call', 'preloaded_constant', 'preloaded_ramp']
+                    'truncated', 'zero_data', 'streams', 'dfdt=1', 'dfdt>=5', 'dfdt_exact_tie', 'rejected_call', 'preloaded_constant', 'preloaded_ramp',
+                    'shared_row_with_std_above_mean', 'earlier_returned_arrays_rechecked']
 
 OBS_DT = 1.4316557653333333
 
@@ -57,7 +59,10 @@ def strategy_(draw, tier):
                                'mean': st.one_of(gen.finite(1.0, 1e3), gen.finite(1e-12, 1e-6)),
                                'std': st.one_of(gen.finite(0.1, 50.0), gen.finite(1e-12, 1e-7)), 'floor_z': gen.finite(-1.0, 1.0)}),
         st.fixed_dictionaries({'op': st.just('from_obs'), 'tables': st.sampled_from(['own', 'own', 'shipped']),
-                               'type': st.sampled_from(['chi2', 'gaussian', 'trunc']), 'share': st.booleans()}),
+                               'type': st.sampled_from(['chi2', 'gaussian', 'trunc']), 'share': st.booleans(),
+                               # deviations 200x larger (some rows then exceed their mean): used with a shared index only,
+                               # where the table row is taken as it is
+                               'big_std': st.booleans()}),
         st.fixed_dictionaries({'op': st.just('zero_data')}),
         # a call that must be rejected (and must leave the frame as it was)
         st.fixed_dictionaries({'op': st.just('bad_add_noise'), 'how': st.sampled_from(['no_std', 'bad_type']), 'mean': gen.finite(1.0, 50.0)}),
@@ -177,6 +182,19 @@ def run_history(obs, stg, fr, case, k):
     T, N = fr.shape
     additions = 0
     shipped = None
+    base = fr.data.copy()          # data at the last reset
+    returned = []                   # (array object handed back, its values at that moment) since the last reset
+
+    def check_returned(when):
+        # what was handed back stays what was added: later operations neither change it nor detach the data from it
+        acc = base.copy()
+        for j, (live, snap) in enumerate(returned):
+            if not np.array_equal(live, snap):
+                obs.fail(f'returned_array_changed_later:{when}', f'array returned by addition {j} of {len(returned)} changed afterwards in {int(np.sum(live != snap))} pixels')
+                return
+            acc = acc + live
+        if returned and when != 'after_zero_data' and not np.array_equal(acc, fr.data):
+            obs.fail(f'data_is_sum_of_returned:{when}', f'{int(np.sum(acc != fr.data))} pixels after {len(returned)} additions')
     for o in case['ops']:
         name = o['op']
         empty = (fr.noise_mean == 0 and fr.noise_std == 0)
@@ -190,6 +208,8 @@ def run_history(obs, stg, fr, case, k):
                 if fr.noise_mean != 0 or fr.noise_std != 0:
                     obs.fail('zero_data_stats', f'{fr.noise_mean},{fr.noise_std}')
                 core.expect_raises(obs, 'get_intensity_after_zero_data', (ValueError,), fr.get_intensity, 10)
+                check_returned('after_zero_data')
+            base, returned = fr.data.copy(), []
             continue
         if name == 'bad_add_noise':
             obs.cls('rejected_call')
@@ -224,6 +244,10 @@ def run_history(obs, stg, fr, case, k):
             if own:
                 means = np.array(case['means'])
                 stds = np.array(case['stds'])
+                if o.get('big_std') and share and o['type'] != 'chi2':
+                    stds = stds * 200.0
+                    if np.any(stds > means):
+                        obs.cls('shared_row_with_std_above_mean')
                 mins = means - 0.01 * stds * (1 + np.arange(len(means)))      # near the mean: the floor is attained
                 kw = dict(x_mean_array=means, x_std_array=stds, share_index=share, noise_type=typ)
                 if o['type'] == 'trunc':
@@ -279,6 +303,10 @@ def run_history(obs, stg, fr, case, k):
         if noise.shape != (T, N):
             obs.fail('noise_shape', f'{noise.shape}')
             return
+        returned.append((noise, noise.copy()))
+        if len(returned) >= 2:
+            obs.cls('earlier_returned_arrays_rechecked')
+        check_returned('after_addition')
         if not np.array_equal(fr.data, before + noise):
             obs.fail(f'returned_is_added:{"first" if empty else "later"}', f'{int(np.sum(fr.data != before + noise))} pixels')
         if floor is not None and np.min(noise) < floor:
